@@ -327,3 +327,151 @@ Proof.
   eexists. split; [vm_compute; reflexivity|]. split; [vm_compute; reflexivity|].
   split; [vm_compute; intro K; discriminate K | vm_compute; reflexivity].
 Qed.
+
+(* ================================================================= factor sums below 1 (nothing clamped) *)
+Lemma loop_keeps md avail gap init0 fuel l r : loop md avail gap init0 fuel l = Done r ->
+  forall y, In y l -> ffrozen y = true -> exists y', In y' r /\ fit y' = fit y /\ ftarget y' = ftarget y.
+Proof.
+  revert l. induction fuel as [|f IH]; intros l; simpl.
+  - destruct (forallb ffrozen l); [|discriminate]. intros H. injection H as <-. intros y Hy _. exists y. auto.
+  - destruct (forallb ffrozen l); [intros H; injection H as <-; intros y Hy _; exists y; auto|].
+    destruct (pass md avail gap init0 l) as [l'|] eqn:Hp; [|discriminate]. intros H y Hy Fy.
+    apply pass_some in Hp.
+    set (st := step1 md (pass_rem md avail gap init0 l) (pass_tot md (pass_rem md avail gap init0 l) l) l) in *.
+    destruct (step1_frozen md (pass_rem md avail gap init0 l) (pass_tot md (pass_rem md avail gap init0 l) l) l y Fy)
+      as (E1 & E2 & E3). fold st in E1, E2, E3.
+    destruct (IH l' H (st y)) as (y' & A & B & C); [rewrite Hp; now apply in_map | assumption|].
+    exists y'. rewrite B, C. auto.
+Qed.
+
+Lemma cnt_map_lt_ex (g : fst -> fst) l : (cnt (map g l) < cnt l)%nat ->
+  exists x, In x l /\ ffrozen x = false /\ ffrozen (g x) = true.
+Proof.
+  induction l as [|x t IH]; simpl; [lia|]. intros Hd. destruct (ffrozen x) eqn:E.
+  - destruct IH as (y & A & B & C); [destruct (ffrozen (g x)); lia | exists y; auto].
+  - destruct (ffrozen (g x)) eqn:G; [exists x; auto|].
+    destruct IH as (y & A & B & C); [lia | exists y; auto].
+Qed.
+
+Definition flex_sum (md : mode) (items : list item) : Q :=
+  sumQ (fun it => if flexible md it then factor md it else 0) items.
+
+Lemma ufs_init md items : ufs md (map (init_item md) items) == flex_sum md items.
+Proof.
+  unfold ufs, flex_sum. rewrite sumQ_map. apply sumQ_ext. intros it _. simpl.
+  destruct (flexible md it); simpl; reflexivity.
+Qed.
+
+Lemma pass_rem_first md avail gap l : 0 <= ufs md l ->
+  pass_rem md avail gap (free_space avail gap l) l == Qmin 1 (ufs md l) * free_space avail gap l.
+Proof.
+  intros Hu. unfold pass_rem. set (u := ufs md l) in *. set (f := free_space avail gap l).
+  destruct (Qlt_le_dec u 1) as [L|L].
+  - rewrite (Q.min_r 1 u) by lra. destruct (Qlt_le_dec (Qabs (f * u)) (Qabs f)) as [A|A]; [ring|].
+    rewrite Qabs_Qmult, (Qabs_pos u Hu) in A. pose proof (Qabs_nonneg f) as Hf.
+    assert (Z : Qabs f == 0).
+    { assert (Qabs f * (1 - u) <= 0) by lra. assert (0 <= Qabs f * (1 - u)) by (apply Qmult_le_0_compat; lra).
+      assert (E : Qabs f * (1 - u) == 0) by lra. apply Qmult_integral in E. destruct E; [assumption | lra]. }
+    assert (H : f == 0).
+    { assert (Z' : Qabs f <= 0) by lra. apply Qabs_Qle_condition in Z'. lra. }
+    rewrite H. ring.
+  - rewrite (Q.min_l 1 u) by lra. ring.
+Qed.
+
+(* when no flexible item ends on its min or max, the line is resolved in one pass and
+   items + extras + gaps = available - (1 - min(1, sum of flex factors)) * initial free space *)
+Theorem flex_fills_fraction items gap avail r : items <> [] -> Forall valid_item items ->
+  Forall (fun it => 0 <= imin it) items -> resolve items gap avail = Done r ->
+  let md := choose_mode items gap avail in
+  (forall x, In x r -> flexible md (fit x) = true -> inside x) ->
+  total gap r == avail - (1 - Qmin 1 (flex_sum md items)) * free_space avail gap (map (init_item md) items).
+Proof.
+  intros Hne Hv Hmin H md Hin. unfold resolve in H. fold md in H. clearbody md.
+  set (l0 := map (init_item md) items) in *. set (f0 := free_space avail gap l0) in *.
+  assert (Hne0 : l0 <> []) by now apply map_nonempty.
+  assert (Hvalid : forall x, In x l0 -> valid_item (fit x) /\ 0 <= imin (fit x)).
+  { intros x Hx. apply in_map_iff in Hx. destruct Hx as (it & <- & Hit). simpl.
+    rewrite Forall_forall in Hv, Hmin. auto. }
+  assert (Hfac : forall x, In x l0 -> ffrozen x = false -> 0 < factor md (fit x)).
+  { intros x Hx E. apply in_map_iff in Hx. destruct Hx as (it & <- & Hit). simpl in *.
+    apply negb_false_iff in E. unfold flexible in E. apply negb_true_iff, orb_false_iff in E. destruct E as (E & _).
+    destruct (Qeq_dec (factor md it) 0) as [Z|Z]; [discriminate|].
+    rewrite Forall_forall in Hv. destruct (Hv it Hit) as (G1 & G2 & _).
+    assert (0 <= factor md it) by (destruct md; simpl; assumption).
+    destruct (Qlt_le_dec 0 (factor md it)); [assumption | exfalso; apply Z; lra]. }
+  assert (Hu : 0 <= ufs md l0).
+  { apply sumQ_nonneg. intros x Hx. destruct (ffrozen x) eqn:E; [lra|]. pose proof (Hfac x Hx E). lra. }
+  rewrite <- (ufs_init md items). fold l0.
+  destruct (length items) as [|f] eqn:Len; [destruct items; [congruence | discriminate]|].
+  simpl in H. destruct (forallb ffrozen l0) eqn:Hf.
+  - (* nothing is flexible *)
+    injection H as <-. rewrite (total_Ssp avail gap l0 Hne0 Hf).
+    assert (U0 : ufs md l0 == 0).
+    { apply sumQ_zero. intros x Hx. rewrite forallb_forall in Hf. now rewrite (Hf x Hx). }
+    assert (F0 : f0 == Ssp avail gap l0).
+    { unfold f0. rewrite free_space_Ssp.
+      assert (Z : sumQ (unf (fun x => ihyp (fit x) - ibase (fit x))) l0 == 0).
+      { apply sumQ_zero. intros x Hx. unfold unf. rewrite forallb_forall in Hf. now rewrite (Hf x Hx). }
+      rewrite Z. ring. }
+    rewrite U0, (Q.min_r 1 0) by lra. rewrite F0. ring.
+  - destruct (pass md avail gap f0 l0) as [l'|] eqn:Hp; [|discriminate].
+    pose proof Hp as Hp'. apply pass_some in Hp'. set (rem := pass_rem md avail gap f0 l0) in *.
+    assert (T0 : pass_tot md rem l0 == 0).
+    { destruct (Qeq_dec (pass_tot md rem l0) 0) as [|T]; [assumption|]. exfalso.
+      (* some item is frozen by a violation and stays on its bound until the end *)
+      pose proof (pass_decreases _ _ _ _ _ _ Hf Hp) as Hd.
+      assert (Ex : exists x, In x l0 /\ ffrozen x = false /\ ffrozen (step1 md rem (pass_tot md rem l0) l0 x) = true).
+      { rewrite Hp' in Hd. now apply cnt_map_lt_ex. }
+      destruct Ex as (x & Hx & E & Fx).
+      destruct (Hvalid x Hx) as ((_ & _ & _ & Hvx) & _).
+      pose proof (violation_not_inside md rem l0 x T Hvx E Fx) as NI.
+      destruct (loop_keeps _ _ _ _ _ _ _ H (step1 md rem (pass_tot md rem l0) l0 x)) as (y' & A & B & C);
+        [rewrite Hp'; now apply in_map | assumption|].
+      apply NI. assert (Iy : inside y').
+      { apply Hin; [assumption|]. rewrite B, step1_fit.
+        apply in_map_iff in Hx. destruct Hx as (it & <- & _). simpl in *. now apply negb_false_iff in E. }
+      unfold inside in *. now rewrite <- B, <- C. }
+    pose proof (all_frozen_when_tot_zero md rem l0 T0) as Hf'. rewrite <- Hp' in Hf'.
+    rewrite (loop_all_frozen _ _ _ _ f l' Hf') in H. injection H as <-.
+    rewrite (total_Ssp avail gap l'); [|rewrite Hp'; now apply map_nonempty | assumption].
+    pose proof (Ssp_when_tot_zero md avail gap rem l0 T0) as K. rewrite <- Hp' in K. rewrite K.
+    fold f0. pose proof (pass_rem_first md avail gap l0 Hu) as PR. fold f0 rem in PR.
+    assert (HD : Dsum md rem l0 == rem).
+    { destruct md.
+      - apply Dsum_grow. intros G. now apply pass_rem_zero_when_gsum_zero.
+      - destruct (Dsum_shrink rem l0) as (_ & HD). apply HD. intros S0.
+        (* a flexible item exists and ends inside, which is impossible when every unfrozen base size is 0 *)
+        destruct (forallb_false_ex l0 Hf) as (x & Hx & E).
+        destruct (Hvalid x Hx) as ((_ & _ & Hb & Hvx) & Hm0). pose proof (Hfac x Hx E) as Hs. simpl in Hs.
+        assert (B0 : ibase (fit x) * ishrink (fit x) == 0).
+        { pose proof (sumQ_nonneg_zero (fun x => if ffrozen x then 0 else ibase (fit x) * ishrink (fit x)) l0) as Z.
+          specialize (Z ltac:(intros z Hz; cbv beta; destruct (ffrozen z) eqn:Ez; [lra|];
+                               destruct (Hvalid z Hz) as ((_ & _ & ? & _) & _); pose proof (Hfac z Hz Ez) as Hz'; simpl in Hz';
+                               apply Qmult_le_0_compat; lra) S0 x Hx). cbv beta in Z. now rewrite E in Z. }
+        assert (Bz : ibase (fit x) == 0).
+        { destruct (Qeq_dec (ibase (fit x)) 0) as [|Nz]; [assumption|]. exfalso.
+          apply Qmult_integral in B0. destruct B0; [contradiction | lra]. }
+        assert (Ix : inside (step1 Shrink rem (pass_tot Shrink rem l0) l0 x)).
+        { apply Hin; [rewrite Hp'; now apply in_map|]. rewrite step1_fit.
+          apply in_map_iff in Hx. destruct Hx as (it & <- & _). simpl in *. now apply negb_false_iff in E. }
+        destruct Ix as (I1 & _). destruct (step1_unfrozen Shrink rem (pass_tot Shrink rem l0) l0 x E) as (Efit & Et & _ & _).
+        rewrite Efit, Et in I1.
+        assert (Ep : prop1 Shrink rem l0 x == 0).
+        { rewrite prop1_eq. unfold ratio. destruct (Qeq_dec (ssum l0) 0); [lra | contradiction]. }
+        rewrite (clamp_proper (fit x) _ 0 Ep) in I1.
+        destruct (clamp_cases (fit x) 0 Hvx) as [(Ec & Hc1 & _)|[(Hlt & Ec)|(M & EM & Hlt & Ec)]].
+        + lra.
+        + lra.
+        + pose proof Hvx as Hv2. rewrite EM in Hv2. simpl in Hv2. lra. }
+    rewrite HD, PR. ring.
+Qed.
+
+(* one item with flex-grow 0.5 in 100px of free space takes half of it *)
+Example ex_fraction : exists r, resolve [mkItem 40 0 None (1 # 2) 1 0] 0 140 = Done r /\
+  map (fun x => Qred (ftarget x)) r = [90] /\ (forall x, In x r -> flexible Grow (fit x) = true -> inside x) /\
+  total 0 r == 140 - (1 - Qmin 1 (1 # 2)) * 100.
+Proof.
+  eexists. split; [vm_compute; reflexivity|]. split; [vm_compute; reflexivity|]. split.
+  - intros x [<-|[]] _. split; simpl; [vm_compute; reflexivity | exact I].
+  - vm_compute. reflexivity.
+Qed.
